@@ -28,3 +28,8 @@ check("C16",
  "Decides structural clauses of well-formedness: (ORDER-FRAMING) in every function that starts a codestream the start-marker write dominates all other writes to the output, the end-marker write dominates every nil-error return and nothing follows it; (BYTES) for every hand-written JPEG 2000 marker segment, SOT/Psot and TLM the bytes written are counted as a linear expression over len() terms (range loops multiplied by their trip count) and must equal the expression stored in the length field; JPEG length-bearing markers go through Writer.WriteSegment (OWNER-LENGTH); (OWNER-SINK) the byte sinks of the Huffman, Golomb and packet-header bit writers are written only by the one function that applies stuffing. Correctness of the stuffing arithmetic, field order and values inside headers are not decided.",
  "trusted: go/ssa; marker constants resolved by value; sequence of writes taken in dominance order (conditional write sequences are out of scope)",
  "DESIGN.md §4 C16")
+check("C09",
+ "loop-progress (ranking-variable / cursor-advance) analysis over the CFG of every decoder loop",
+ "Decides the termination clause only: every natural loop in decode-reachable code is proved to make progress when each back edge strictly moves an integer variable (or struct field) that an exit test reads, in the direction of that test, or when every cycle passes a cursor primitive whose bottom-up summary consumes at least one input unit on every non-error return. A violation is reported only for a stall path: a cycle that leaves every tested variable exactly unchanged and calls nothing. Loops whose progress is relational are counted out of scope. The 10 s / 512 MiB + 64*S budgets are runtime quantities and are not decided.",
+ "trusted: go/ssa natural-loop structure; engine E2 for increment ranges; cursor fields recognised by the read-position idiom (x.pos += k)",
+ "DESIGN.md §4 C09")
